@@ -7,6 +7,7 @@ import (
 	"time"
 
 	"github.com/bokysan/socketace/v2/internal/streams/dns/util"
+	mdns "github.com/miekg/dns"
 )
 
 // Accessors for the /verif harness (C12/C13): read-only views of the session tables.
@@ -80,3 +81,14 @@ func (s *ServerDnsListener) VerifOccupied() (live []int, retired []int) {
 
 // VerifAcceptBacklog is the number of new sessions waiting to be handed out by Accept().
 func (s *ServerDnsListener) VerifAcceptBacklog() int { return len(s.accept) }
+
+// ---- the real communicator (C12: everything between the socket and onMessage and back) ----
+
+// VerifNewCommunicator is a NetConnectionServerCommunicator around a miekg server that has not been started: the
+// harness calls the handler the communicator registers with miekg/dns itself (VerifHandle).
+func VerifNewCommunicator(server *mdns.Server) *NetConnectionServerCommunicator {
+	return &NetConnectionServerCommunicator{server: server}
+}
+
+// VerifHandle is the function NewNetConnectionServerCommunicator registers with dns.HandleFunc.
+func (n *NetConnectionServerCommunicator) VerifHandle(w mdns.ResponseWriter, r *mdns.Msg) { n.handleRequest(w, r) }
